@@ -70,6 +70,21 @@ CHECKS = {
         technique='runtime differential monitor over the simulated Courier transport: generated lazy expressions (values and raising callables) are evaluated locally and through the real CourierServer/CourierClient (sync and async); remote-object chains are mirrored on a local twin; remote iterators/queues are drained and compared with the generator; concurrent client threads; calls on a server with shutdown requested',
         text='4.8k cases per quick run (23k transport calls), 190k thorough, on real threads.',
         note='Trusted: the transport stand-in (validated by running the 186 upstream courier tests against it in the thorough tier of C16).'),
+    'C08': dict(
+        category='exploration', design_ref='DESIGN.md §4 C08',
+        technique='runtime differential monitor with a reference interpreter: generated select/apply/assign/filter/batch/sink chains over all key shapes run through the real runner and through an independent 270-line interpreter (validated on 51 literal expectations of the repository tests); caller inputs compared by deep snapshot and node identity; deliberately invalid key combinations must be rejected when built',
+        text='13k chains per quick run, 1.1M thorough.',
+        note='Only keys that resolve are generated; assign/batch only where documented-valid (see assumptions). Two known findings recorded.'),
+    'C12': dict(
+        category='exploration', design_ref='DESIGN.md §4 C12',
+        technique='runtime differential monitor with enumerated failure positions: every subset of <= 3 failing positions of <= 8-unit streams (operators and data source, with/without slice support) x batching options x num_threads 0-2, compared with the reference interpreter run on the stream without the failing units; with skipping off: exception chain, no further data, sink closed, helper threads ended',
+        text='19k (chain, failure set, options) cases per quick run, 500k thorough.',
+        note='Threaded runs compared as multisets. Two known findings recorded.'),
+    'C16': dict(
+        category='exploration', design_ref='DESIGN.md §3.4, §4 C16', engine='E4-simulated-courier',
+        technique='runtime differential monitor over the simulated transport on real threads: generated pipelines run through sharded_pipelines_as_iterator and run_pipeline_interleaved on real WorkerPool/PrefetchedCourierServer objects and are compared (batch multiset, exactly one final aggregate, exact integer aggregators) with the in-process run and an independent plain-Python reference; merge_states with every wrong strict_states_cnt must raise',
+        text='640 distributed runs per quick run (8k transport calls), 16k thorough; the thorough tier also runs the 186 upstream courier tests against the stand-in as a fidelity suite.',
+        note='Fault-free; a case that misses a 120 s watchdog twice is reported as a hang.'),
 }
 
 NOT_APPLICABLE = {}
